@@ -1633,6 +1633,17 @@ func main() {
 	sets = append(sets, coverageSets(r.Fork(3000), nsets, f.Tier)...)
 	runSets(sets, o, workdir)
 	phase("sets compiled and run")
+	nl := 10
+	if f.Tier == "thorough" {
+		nl = 40
+	}
+	var lsets []*lset
+	for i := 0; i < nl; i++ {
+		lsets = append(lsets, genLSet(r.Fork(20000+i), i))
+	}
+	lsets = append(lsets, coverageLSets(nl)...)
+	runLambdaSets(lsets, o, workdir)
+	phase("lambda sets compiled and run")
 	for i := 0; i < nbadRounds; i++ {
 		for _, bd := range genBadDecls(r.Fork(5000 + i)) {
 			runBadDecl(bd, o)
